@@ -1343,6 +1343,53 @@ pub fn run(tier: Tier) -> i32 {
         }
         per_rule.lock().unwrap().insert("IllTypedText".into(), e);
     }
+    // array sizes given by name: every bad size name (unknown, a parameter, a constant that is not a
+    // usize) at every depth of a type (directly, under literal- and const-sized arrays, in a tuple) in
+    // every place a type is written; the twin with the usize constant K in the same place must be accepted
+    {
+        let mut e = (0u64, 0u64, 0u64);
+        let mut twins_refused = 0u64;
+        let wrappers: [&str; 9] = ["[u8; S]", "[[u8; S]; 2]", "[[u8; 2]; S]", "[[[u8; S]; 2]; 3]", "([u8; S], bool)", "[([u8; S], bool); 2]", "[[u8; S]; K]", "[[u8; K]; S]", "[[[u8; 1]; S]; 2]"];
+        let places: [(&str, &str); 6] = [
+            ("parameter", "pub fn main(a: W, n: usize) -> usize {\n  n\n}\n"),
+            ("result", "fn f(a: WK) -> W {\n  a\n}\npub fn main(a: WK, n: usize) -> usize {\n  let b = f(a);\n  n\n}\n"),
+            ("struct field", "struct Q { f: W }\npub fn main(q: Q, n: usize) -> usize {\n  n\n}\n"),
+            ("enum field", "enum Q { A(W), B }\npub fn main(q: Q, n: usize) -> usize {\n  n\n}\n"),
+            ("let annotation", "pub fn main(a: WK, n: usize) -> usize {\n  let b: W = a;\n  n\n}\n"),
+            ("parameter of a private fn", "fn g(a: W, n: usize) -> usize {\n  n\n}\npub fn main(a: WK, n: usize) -> usize {\n  g(a, n)\n}\n"),
+        ];
+        for w in wrappers {
+            for (pname, ptext) in places {
+                let build = |size: &str| format!("const K: usize = 2usize;\nconst N8: u8 = 2u8;\nconst NB: bool = true;\n{}", ptext.replace("WK", &w.replace('S', "K")).replace('W', &w.replace('S', size)));
+                let twin = build("K");
+                if !matches!(catch(|| garble_lang::check(&twin).map(|_| ())), Ok(Ok(()))) {
+                    twins_refused += 1;
+                    continue;
+                }
+                for size in ["NOPE", "n", "N8", "NB"] {
+                    e.0 += 1;
+                    let src = build(size);
+                    set_context(&src);
+                    let case = json!({"kind": "ill-typed-text", "name": format!("size {size} in {w} as {pname}"), "source": src, "well_typed_twin": twin});
+                    let site = format!("N/SizeName/{pname}/{w}/{size}");
+                    match catch(|| garble_lang::check(&src).map(|_| ())) {
+                        Err(p) => {
+                            coll.push(Violation::new("C17", site.clone(), "checker-rust-panic", "", case.clone(), p.clone()));
+                            coll.push(Violation::new("C07", site, "rust-panic", "", case, p));
+                        }
+                        Ok(Ok(())) => coll.push(Violation::new("C17", site, "ill-typed-accepted", "", case, "accepted by the type checker")),
+                        Ok(Err(garble_lang::Error::CompileTimeError(garble_lang::CompileTimeError::TypeError(errs)))) if !errs.is_empty() => e.1 += 1,
+                        Ok(Err(other)) => {
+                            e.2 += 1;
+                            coll.push(Violation::new("C17", site, "harness-text-not-a-type-error", "", case, format!("{other:?}")));
+                        }
+                    }
+                }
+            }
+        }
+        per_rule.lock().unwrap().insert("SizeName".into(), e);
+        per_rule.lock().unwrap().insert("SizeName(twins refused: the place does not apply)".into(), (twins_refused, 0, 0));
+    }
     // a value of another kind meets an expected type: every path by which an expression meets the type
     // its context requires (operand of == / != / & / | / ^, if / match branch, annotated let, argument,
     // result, array element, assignment, field, repeat element, nested in a tuple), for non-number
